@@ -194,7 +194,7 @@ def c13(tier):
                                                          flagsets=[[], ["--successful"]]), **_HO)]
     if tier == "quick":
         return q
-    q = q + [_ob("H-resubmit/fault-wide", HR, "h_resubmit", dict(shapes=["chain3", "join3"], bss=[1, 2], incomplete=False,
+    q = q + [_ob("H-resubmit/fault-wide", HR, "h_resubmit", dict(shapes=["chain3", "join3"], bss=[2], incomplete=False,
                                                                  flagsets=[[], ["--no-failed"], ["--successful"]],
                                                                  fault_kinds=["edquot", "lock_timeout", "sbatch"], lock_mode="M2"), **_HO),
              _ob("H-resubmit/twice-wide", HR, "h_resubmit", dict(shapes=["chain3", "join3"], bss=[2], incomplete=False, second=True,
